@@ -202,13 +202,30 @@ def gen_event(rng, strings, optional_keys):
 # reference decoder
 # ---------------------------------------------------------------------------------------------
 
+LOG_FLAG_NAMES = {1: 'has_private_data', 2: 'has_subsystem', 4: 'has_rules', 8: 'has_oversize', 0x10: 'has_context_data'}
+SIGNPOST_FLAG_NAMES = {**LOG_FLAG_NAMES, 0x80: 'has_name'}
+SIGNPOST_TYPE_NAMES = {1: 'interval_begin', 2: 'interval_end', 0x40: 'scope_thread', 0x80: 'scope_process',
+                       0xc0: 'scope_system'}
+
+
+def contained(value, names):
+    return sorted(n for v, n in names.items() if value & v == v)
+
+
 def ref_ti(word):
     ns = word & 0xff
     ty = (word >> 8) & 0xff
     tf = (word >> 16) & 0xff
-    return {'namespace': ns, 'type': ty, 'has_current_aid': bool(tf & 1), 'pc_style': (tf >> 1) & 7,
-            'has_unique_pid': bool(tf & 0x10), 'has_large_offset': bool(tf & 0x20), 'flags': (word >> 24) & 0xff,
-            'code': (word >> 32) & 0xffffffff}
+    fl = (word >> 24) & 0xff
+    out = {'namespace': ns, 'type': ty, 'has_current_aid': bool(tf & 1), 'pc_style': (tf >> 1) & 7,
+           'has_unique_pid': bool(tf & 0x10), 'has_large_offset': bool(tf & 0x20), 'flags': fl,
+           'code': (word >> 32) & 0xffffffff, 'namespace_name': NAMESPACES.get(ns), 'pc_style_name': PC_STYLES[(tf >> 1) & 7]}
+    if ns in NS_TYPES:
+        out['type_names'] = [NS_TYPES[ns].get(ty)]
+    elif ns == 6:
+        out['type_names'] = contained(ty, SIGNPOST_TYPE_NAMES)
+    out['flag_names'] = contained(fl, LOG_FLAG_NAMES if ns == 4 else SIGNPOST_FLAG_NAMES)
+    return out
 
 
 def ref_segment(seg, inv):
@@ -289,10 +306,20 @@ def observe_ti(ti):
     undecoded are reported as such."""
     def val(x):
         return x.value if hasattr(x, 'value') else x
+    def members(x):
+        """Names of the declared members contained in a decoded enum/flag value."""
+        import enum
+        if isinstance(x, enum.Flag):
+            return sorted(m.name for m in type(x).__members__.values() if m.value and (x & m) == m)
+        if isinstance(x, enum.Enum):
+            return [x.name]
+        return None
     return {'namespace': val(ti.namespace), 'type': int(val(ti.type_)), 'has_current_aid': bool(ti.has_current_aid),
             'pc_style': val(ti.pc_style), 'has_unique_pid': bool(ti.has_unique_pid),
             'has_large_offset': bool(ti.has_large_offset),
-            'flags': None if ti.flags is None else int(val(ti.flags)), 'code': ti.code}
+            'flags': None if ti.flags is None else int(val(ti.flags)), 'code': ti.code,
+            'namespace_name': getattr(ti.namespace, 'name', None), 'pc_style_name': getattr(ti.pc_style, 'name', None),
+            'type_names': members(ti.type_), 'flag_names': members(ti.flags)}
 
 
 def compare(decoded, exp):
@@ -309,8 +336,10 @@ def compare(decoded, exp):
                 continue
             obs = observe_ti(got)
             for k, w in want.items():
-                if k == 'flags' and obs[k] is None:
+                if k in ('flags', 'flag_names') and obs['flags'] is None:
                     continue  # flag byte not decoded for this namespace: those bits are not covered
+                if k in ('type_names', 'flag_names') and obs[k] is None:
+                    continue  # left as a raw integer by the decoder
                 if obs[k] != w:
                     bad.append((f'trace_identifier.{k}', obs[k], w))
             continue
